@@ -292,7 +292,11 @@ impl Debugee {
     }
 
     pub fn trace_until_stop(&mut self, tcx: TraceContext) -> Result<StopReason, Error> {
+        #[cfg(feature = "verif")]
+        crate::debugger::verif::rec_call_begin(0, -1, &tcx);
         let event = self.tracer.resume(tcx)?;
+        #[cfg(feature = "verif")]
+        crate::debugger::verif::rec_call_end_resume(&event);
         match event {
             StopReason::DebugeeExit(_) => {
                 self.execution_status = ExecutionStatus::Exited;
@@ -352,7 +356,11 @@ impl Debugee {
         tcx: TraceContext,
         pid: Pid,
     ) -> Result<Option<StopReason>, Error> {
+        #[cfg(feature = "verif")]
+        crate::debugger::verif::rec_call_begin(1, pid.as_raw(), &tcx);
         let result = self.tracer.single_step(tcx, pid);
+        #[cfg(feature = "verif")]
+        crate::debugger::verif::rec_call_end_step(&result);
         if let Err(Error::ProcessExit(_)) = result {
             self.execution_status = ExecutionStatus::Exited;
         }
